@@ -420,15 +420,16 @@ class RefMachine:
 
 
 # ----------------------------------------------------------------------------
-# CPython rendering of the same program (upstream MockBase style: one `yield` per clock); used to
-# validate the abstract machine against "executing the Python source directly".
+# CPython rendering of the same program (upstream MockBase style: one `yield` per clock).  The control flow is executed
+# by CPython itself (while / if / break / continue / return / yield from), which makes it an independent formulation of
+# "executing the Python source directly"; the abstract machine above is validated against it on ALL input sequences
+# up to a length bound before it is trusted as an oracle.
 # ----------------------------------------------------------------------------
 def render_pygen(prog):
-    """returns source of `def mock(env)`: a generator; env has .inp (tuple), .site(n) callback, .v"""
     f = Flat(prog)
     out = []
 
-    def block(lid, ind, fn):
+    def block(lid, ind):
         kind, stmts = f.lists[lid]
         pre = "    " * ind
         lines = []
@@ -442,41 +443,125 @@ def render_pygen(prog):
                 if st[1] == "false":
                     lines += [pre + "while True:", pre + "    yield"]
                 else:
-                    lines += [pre + f"if not (env.first and env.aw({st[1]!r})):",
+                    lines += [pre + f"if env.first and env.aw({st[1]!r}):",
+                              pre + "    env.first = False",
+                              pre + "else:",
                               pre + "    env.first = False",
                               pre + "    yield",
                               pre + f"    while not env.aw({st[1]!r}):",
-                              pre + "        yield",
-                              pre + "env.first = False"]
+                              pre + "        yield"]
             elif k == "if":
                 lines += [pre + "env.first = False", pre + f"if env.cond({st[1]!r}):"]
-                lines += block(f.child[(lid, idx, 0)], ind + 1, fn)
+                lines += block(f.child[(lid, idx, 0)], ind + 1)
                 if st[3]:
                     lines.append(pre + "else:")
-                    lines += block(f.child[(lid, idx, 1)], ind + 1, fn)
+                    lines += block(f.child[(lid, idx, 1)], ind + 1)
             elif k == "while":
-                # loop entry costs a clock unless it is the first action; every back-edge costs a clock;
-                # `continue` re-tests in the same clock: implemented with a flag consumed at the loop head
-                lines += [pre + "if not env.first:", pre + "    yield", pre + "env.first = False", pre + "env.skip = True",
-                          pre + f"while env.head({st[1]!r}):"]
-                lines += block(f.child[(lid, idx, 0)], ind + 1, fn)
+                # loop entry costs a clock unless it is the first action; every back-edge costs a clock (the trailing
+                # yield); `continue` skips the trailing yield and re-tests the condition in the same clock
+                lines += [pre + "if not env.first:", pre + "    yield", pre + "env.first = False",
+                          pre + f"while env.cond({st[1]!r}):"]
+                lines += block(f.child[(lid, idx, 0)], ind + 1)
                 lines += [pre + "    yield"]
-                # the trailing yield is the back-edge clock; `continue` must skip it
             elif k == "call":
                 lines.append(pre + f"yield from sub{st[1]}(env)")
-            elif k == "continue":
-                lines += [pre + "env.zero_time_continue()", pre + "continue"]
             else:
-                lines.append(pre + k)
+                lines.append(pre + k)  # break / continue / return
         return lines
 
     for j in f.used_subs:
         out.append(f"def sub{j}(env):")
-        out += block(f.sub_lid[j], 1, f"sub{j}")
+        out += block(f.sub_lid[j], 1)
         out.append("    return")
         out.append("    yield")
     out.append("def mock(env):")
-    out += block(f.top, 1, "mock")
+    out += block(f.top, 1)
     out.append("    return")
     out.append("    yield")
+    out.append("def run(env):")
+    out.append("    while True:")
+    out.append("        env.first = True")
+    out.append("        yield from mock(env)")
+    out.append("        yield")
     return "\n".join(out), f
+
+
+class _Env:
+    def __init__(self, nsites):
+        self.inp = (0, 0)
+        self.first = True
+        self.o = 0
+        self.ov = 0
+        self.v = 0
+        self.pulses = set()
+        self.nsites = nsites
+        self.o_next = None
+        self.ov_next = None
+        self.budget = 0
+
+    def site(self, n):
+        self.o_next = n
+        self.pulses.add(n)
+        self.v = (self.v + 1) & 3
+        self.ov_next = self.v
+
+    def aw(self, c):
+        self.budget -= 1
+        if self.budget < 0:
+            raise ZeroTimeLoop()
+        return AWAIT[c][1](self.inp, self.v)
+
+    def cond(self, c):
+        self.budget -= 1
+        if self.budget < 0:
+            raise ZeroTimeLoop()
+        return True if c == "T" else COND[c][1](self.inp, self.v)
+
+    def outputs(self):
+        d = {"o": self.o, "ov": self.ov}
+        for n in range(1, self.nsites + 1):
+            d[f"p{n}"] = 1 if n in self.pulses else 0
+        return d
+
+
+def validate_ref_against_cpython(prog, length=4):
+    """Runs RefMachine and the CPython generator rendering on all input sequences of the given length (as a tree: prefixes
+    are shared).  Returns (number of traces compared, mismatch description | None)."""
+    import itertools
+
+    src, flat = render_pygen(prog)
+    ns = {}
+    exec(compile(src, "<pygen>", "exec"), ns)
+    n = 0
+    for seq in itertools.product([(0, 0), (1, 0), (0, 1), (1, 1)], repeat=length):
+        env = _Env(flat.nsites)
+        gen = ns["run"](env)
+        ref = RefMachine(flat)
+        n += 1
+        for k, inp in enumerate(seq):
+            env.inp = inp
+            env.pulses = set()
+            env.o_next = env.ov_next = None
+            env.budget = 2000
+            try:
+                next(gen)
+                zero_py = False
+            except ZeroTimeLoop:
+                zero_py = True
+            try:
+                exp = ref.step(inp)
+                zero_ref = False
+            except ZeroTimeLoop:
+                zero_ref = True
+            if zero_py or zero_ref:
+                if zero_py != zero_ref:
+                    return n, f"zero-time-loop disagreement at step {k} of {seq}: cpython={zero_py} machine={zero_ref}"
+                break
+            if env.o_next is not None:
+                env.o = env.o_next
+            if env.ov_next is not None:
+                env.ov = env.ov_next
+            got = env.outputs()
+            if got != exp:
+                return n, f"after {seq[:k + 1]}: cpython generator {got} != abstract machine {exp}"
+    return n, None
